@@ -40,3 +40,63 @@ Example C27_example :
   match run p [("acc", VAccount "a")] {| st_bal := []; st_meta := [(("a", "fee"), VPortion (1#4))] |} with
   | Ok r => map pamt (all_postings r) | _ => [] end = [3].
 Proof. vm_compute. reflexivity. Qed.
+
+(* ---------- the bytecode layer (Machine/Vm.v, Compile.v, CompileCorrect.v) ----------
+   Vm.v is the machine of vm/machine.go with Panic wherever Go panics (typed pop on another type, stack underflow,
+   BUMP index out of range, OP_SAVE default, nil amounts, "stack not empty after execution"); Compile.v is the compiler
+   (gen: instructions whose APUSH operand is a resource description; assign: addresses into the resource table).
+   The tie `nsbc` checks on every run that Compile.v emits byte-for-byte the program of the real compiler.Compile
+   (instructions, resources, needed balances) and that Vm.v on the REAL bytecode yields the real machine's result.
+   Proved here, for EVERY checked program (all statement forms: sends with account / world / overdraft / max / in-order /
+   allotment sources, account / max-remaining / allotment / kept destinations, send-all, save, metadata) in the
+   environment of a run: executing the emitted instruction stream, APUSH operands read by their denotation, never
+   panics, and the stack is empty at the end (C27_vm_no_panic_code).  The concrete level is below (C27_vm_no_panic). *)
+From LV Require Import Machine.EnvProofs Machine.Vm Machine.Compile Machine.CompileCorrect.
+Theorem C27_vm_no_panic_code : forall p te e b0,
+  chk_vars [] (pvars p) = Some te -> Forall (fun s => chk_stmt te s = true) (pstmts p) -> cons_env te e -> env_valid e ->
+  exec (sym_look e) (code (sp_events (gen p))) (vm_init b0) <> Panic /\
+  forall st, exec (sym_look e) (code (sp_events (gen p))) (vm_init b0) = Ok st -> vstk st = [] /\ finish st = Ok st.
+Proof. exact code_no_panic. Qed.
+Print Assumptions C27_vm_no_panic_code.
+
+(* one tick per instruction always suffices (no jumps: P strictly increases) *)
+Theorem C27_vm_fuel : forall (O : Type) (look : O -> option vval) is fuel st, (List.length is <= fuel)%nat ->
+  exec_fuel look fuel is st = Some (exec look is st).
+Proof. intros O look. exact (fuel_sufficient look). Qed.
+Print Assumptions C27_vm_fuel.
+
+(* ---------- the concrete machine (Machine/RunCorrect.v) ----------
+   FRAGMENT COVERED: every program (all statement forms, all variable origins); nothing is left to the tie alone.
+   For EVERY program p that compiles (Compile.compile p = Some cp: instructions with addresses, concrete resource
+   table, needed balances -- the objects the tie `nsbc` compares byte for byte with the real compiler's output),
+   every variables JSON and every store, running cp the way the runtime adapter does (VmRun.run_program:
+   ParseVariablesJSON, ResolveResources, ResolveBalances, Execute, "stack not empty" check) never reaches a Panic
+   outcome of Vm.v / VmRun.v: no typed pop finds another type, no stack underflow, no BUMP index out of range, no
+   nil amount is dereferenced, no default branch, no type assertion of ResolveResources / ResolveBalances fails, and
+   the stack is empty after the last instruction. *)
+From LV Require Import Machine.VmRun Machine.RunCorrect.
+Theorem C27_vm_no_panic : forall p cp given s, compile p = Some cp -> run_program cp given s <> Panic.
+Proof. exact run_program_no_panic. Qed.
+Print Assumptions C27_vm_no_panic.
+
+Theorem C27_vm_no_panic_run : forall p given s, vm_run p given s <> Panic.
+Proof. exact vm_run_no_panic. Qed.
+Print Assumptions C27_vm_no_panic_run.
+
+Theorem C27_vm_stack_empty : forall cp given s vr, run_program cp given s = Ok vr ->
+  exists vals b0 st, exec (nth_error vals) (cp_instrs cp) {| vstk := []; vbal := b0; vposts := []; vtx := []; vacc := [] |} = Ok st /\
+                     vstk st = [] /\ vr_posts vr = vposts st /\ vr_bal vr = vbal st.
+Proof. exact run_program_stack_empty. Qed.
+Print Assumptions C27_vm_stack_empty.
+
+(* non-vacuity: the program of C27_example compiles (non-empty instruction list and resource table) and the bytecode VM
+   returns the posting of 3 *)
+Example C27_vm_example :
+  let p := {| pvars := [ {| vty := TAccount; vname := "acc"; vorigin := ONone |};
+                         {| vty := TPortion; vname := "fee"; vorigin := OMeta (AccVar "acc") "fee" |} ];
+              pstmts := [ Send (MonLit (AssetLit "USD") 10) (VSrc (SAccount (AccLit "world") OdNone))
+                               (DAllot (DACons (PVar "fee") (To (DAccount (AccVar "acc"))) (DACons PRemaining Kept DANil))) ] |} in
+  (match compile p with Some cp => (List.length (cp_instrs cp) <=? 0, List.length (cp_res cp) <=? 0)%nat | None => (true, true) end,
+   match vm_run p [("acc", VAccount "a")] {| st_bal := []; st_meta := [(("a", "fee"), VPortion (1#4))] |} with
+   | Ok vr => map pamt (vr_posts vr) | _ => [] end) = ((false, false), [3]).
+Proof. vm_compute. reflexivity. Qed.
